@@ -1,5 +1,5 @@
 (* C09 — proofs about the unit-propagation / SATSolver model (Model/UnitProp.v). *)
-From Coq Require Import Bool NArith List Arith Lia.
+From Coq Require Import Bool NArith List Arith Lia Permutation.
 Import ListNotations.
 From RsddV Require Import Base.Util Model.UnitProp.
 
@@ -922,6 +922,403 @@ Proof.
   intros Hd Hres. destruct (sat_decide_push _ _ _ _ _ Hd Hres) as [w' [nm [_ [_ [-> ->]]]]].
   unfold sat_is_sat, top_state. simpl. destruct (Nat.eqb _ _); split; auto; discriminate.
 Qed.
+(* ================= the fix-point: two-watched-literal invariant ================= *)
+Lemma set_nth_app {A} (l1 : list A) x l2 y : set_nth (l1 ++ x :: l2) (length l1) y = l1 ++ y :: l2.
+Proof. induction l1 as [|z t IH]; simpl; [reflexivity|]. rewrite IH. reflexivity. Qed.
+
+Lemma swap_remove_app l1 x l2 :
+  swap_remove (l1 ++ x :: l2) (length l1) =
+  match rev l2 with [] => l1 | lst :: r => l1 ++ lst :: rev r end.
+Proof.
+  unfold swap_remove.
+  assert (Hrev : rev (l1 ++ x :: l2) = rev l2 ++ x :: rev l1).
+  { rewrite rev_app_distr. cbn [rev]. rewrite <- app_assoc. reflexivity. }
+  rewrite Hrev. destruct (rev l2) as [|lst r] eqn:E.
+  - assert (l2 = []) by (apply (f_equal (@rev nat)) in E; rewrite rev_involutive in E; exact E). subst l2.
+    cbn [app].
+    assert (Hb : Nat.eqb (S (length l1)) (length (l1 ++ [x])) = true).
+    { apply Nat.eqb_eq. rewrite app_length. simpl. lia. }
+    rewrite Hb. apply removelast_last.
+  - assert (Hl2 : l2 = rev r ++ [lst]).
+    { apply (f_equal (@rev nat)) in E. rewrite rev_involutive in E. exact E. }
+    cbn [app].
+    assert (Hb : Nat.eqb (S (length l1)) (length (l1 ++ x :: l2)) = false).
+    { apply Nat.eqb_neq. rewrite app_length. simpl. rewrite Hl2, app_length. simpl. lia. }
+    rewrite Hb, set_nth_app. rewrite Hl2.
+    replace (l1 ++ lst :: rev r ++ [lst]) with ((l1 ++ lst :: rev r) ++ [lst]) by (rewrite <- app_assoc; reflexivity).
+    apply removelast_last.
+Qed.
+
+Lemma swap_remove_spec l i : i < length l ->
+  Permutation (nth i l 0 :: swap_remove l i) l /\
+  (forall p, p < i -> nth p (swap_remove l i) 0 = nth p l 0).
+Proof.
+  intros Hi. destruct (nth_split l 0 Hi) as [l1 [l2 [Hl Hlen]]].
+  generalize dependent (nth i l 0). intros x Hl. subst l i. rewrite swap_remove_app.
+  destruct (rev l2) as [|lst r] eqn:E.
+  - assert (l2 = []) by (apply (f_equal (@rev nat)) in E; rewrite rev_involutive in E; exact E). subst l2.
+    split.
+    + apply Permutation_cons_append.
+    + intros p Hp. rewrite app_nth1 by exact Hp. reflexivity.
+  - assert (Hl2 : l2 = rev r ++ [lst]).
+    { apply (f_equal (@rev nat)) in E. rewrite rev_involutive in E. exact E. }
+    subst l2. split.
+    + apply Permutation_trans with (l1 ++ x :: lst :: rev r).
+      * apply Permutation_middle.
+      * apply Permutation_app_head. apply perm_skip. apply Permutation_cons_append.
+    + intros p Hp. rewrite !app_nth1 by exact Hp. reflexivity.
+Qed.
+
+Lemma swap_remove_in l i : i < length l -> NoDup l ->
+  NoDup (swap_remove l i) /\ forall x, In x (swap_remove l i) <-> In x l /\ x <> nth i l 0.
+Proof.
+  intros Hi Hnd. destruct (swap_remove_spec l i Hi) as [Hp _].
+  assert (Hnd2 : NoDup (nth i l 0 :: swap_remove l i)).
+  { eapply Permutation_NoDup; [apply Permutation_sym; exact Hp|exact Hnd]. }
+  inversion Hnd2 as [|? ? Hnotin Hnd3]; subst. split; [exact Hnd3|]. intros x. split.
+  - intros Hx. split; [eapply Permutation_in; [exact Hp|right; exact Hx]|]. intros ->. contradiction.
+  - intros [Hx Hne]. apply Permutation_sym in Hp. apply (Permutation_in _ Hp) in Hx.
+    destruct Hx as [Hx|Hx]; [congruence|exact Hx].
+Qed.
+
+(* --- watch-list algebra --- *)
+Definition watched (w : watches) (ci : nat) (l : lit) : Prop := In ci (wl_get w l).
+
+Lemma wl_put_lengths w l x :
+  length (wpos (wl_put w l x)) = length (wpos w) /\ length (wneg (wl_put w l x)) = length (wneg w).
+Proof. unfold wl_put. destruct (lpol l); simpl; rewrite ?length_set_nth; auto. Qed.
+
+Lemma wl_get_put_same w l x :
+  lvar l < length (wpos w) -> lvar l < length (wneg w) -> wl_get (wl_put w l x) l = x.
+Proof.
+  intros H1 H2. unfold wl_get, wl_put. destruct (lpol l) eqn:E; simpl; rewrite ?E; apply nth_set_nth_eq; assumption.
+Qed.
+
+Lemma wl_get_put_other w l l' x : l <> l' -> wl_get (wl_put w l x) l' = wl_get w l'.
+Proof.
+  intros Hne. unfold wl_get, wl_put. destruct l as [v p], l' as [v' p']. simpl.
+  destruct p, p'; simpl; try reflexivity; apply nth_set_nth_neq; intros ->; apply Hne; reflexivity.
+Qed.
+
+Lemma lneg_involutive l : lneg (lneg l) = l.
+Proof. destruct l as [v p]. unfold lneg. simpl. rewrite negb_involutive. reflexivity. Qed.
+
+Lemma lvar_lneg l : lvar (lneg l) = lvar l.
+Proof. reflexivity. Qed.
+
+Lemma mem_nat_in x l : mem_nat x l = true <-> In x l.
+Proof. unfold mem_nat. apply existsb_eqb_in. Qed.
+
+(* --- the structural part of the invariant (independent of any model) --- *)
+Record S_inv (nvars : nat) (cls : list clause) (w : watches) : Prop := mkS {
+  S_ok : w_ok (length cls) w;
+  S_len_pos : length (wpos w) = nvars;
+  S_len_neg : length (wneg w) = nvars;
+  S_nodup : forall l, NoDup (wl_get w l);
+  S_two : forall ci, ci < length cls -> 2 <= length (nth ci cls []) ->
+    exists l1 l2, l1 <> l2 /\ In l1 (nth ci cls []) /\ In l2 (nth ci cls []) /\
+                  forall l, watched w ci l <-> (l = l1 \/ l = l2)
+}.
+
+(* the value part, for a model m: a clause with a false watched literal has a true literal,
+   unless that watched literal is the negation of a literal whose watchers are being visited (B) *)
+Definition V (cls : list clause) (B : list lit) (w : watches) (m : pmodel) : Prop :=
+  forall ci l, ci < length cls -> 2 <= length (nth ci cls []) -> watched w ci l -> lit_false m l = true ->
+    clause_sat m (nth ci cls []) = true \/ In (lneg l) B.
+
+Definition lits_in_range (nvars : nat) (cls : list clause) : Prop :=
+  forall c l, In c cls -> In l c -> lvar l < nvars.
+
+(* moving the watch of clause ci = wl(la)[idx] from la to nl *)
+Definition move_watch (w : watches) (la : lit) (idx : nat) (nl : lit) : watches :=
+  wl_push (wl_put w la (swap_remove (wl_get w la) idx)) nl (nth idx (wl_get w la) 0).
+
+Lemma move_watch_spec nvars cls w la idx nl :
+  S_inv nvars cls w -> lvar la < nvars -> lvar nl < nvars -> nl <> la ->
+  idx < length (wl_get w la) -> ~ watched w (nth idx (wl_get w la) 0) nl ->
+  let ci := nth idx (wl_get w la) 0 in
+  let w2 := move_watch w la idx nl in
+  (forall cj l, watched w2 cj l <-> (cj = ci /\ l = nl) \/ (watched w cj l /\ ~ (cj = ci /\ l = la))) /\
+  (forall l, NoDup (wl_get w2 l)) /\
+  (forall l, l <> la -> l <> nl -> wl_get w2 l = wl_get w l) /\
+  (forall p, p < idx -> nth p (wl_get w2 la) 0 = nth p (wl_get w la) 0) /\
+  length (wpos w2) = nvars /\ length (wneg w2) = nvars /\ w_ok (length cls) w2.
+Proof.
+  intros HS Hla Hnl Hne Hidx Hnw ci w2.
+  destruct HS as [Hok Hlp Hln Hnd _].
+  set (w1 := wl_put w la (swap_remove (wl_get w la) idx)).
+  destruct (wl_put_lengths w la (swap_remove (wl_get w la) idx)) as [Hlp1 Hln1]. fold w1 in Hlp1, Hln1.
+  assert (Hg1a : wl_get w1 la = swap_remove (wl_get w la) idx) by (apply wl_get_put_same; lia).
+  assert (Hg1o : forall l, l <> la -> wl_get w1 l = wl_get w l) by (intros l Hl; apply wl_get_put_other; congruence).
+  assert (Hw2 : w2 = wl_put w1 nl (wl_get w1 nl ++ [ci])) by reflexivity.
+  destruct (wl_put_lengths w1 nl (wl_get w1 nl ++ [ci])) as [Hlp2 Hln2]. rewrite <- Hw2 in Hlp2, Hln2.
+  assert (Hg2n : wl_get w2 nl = wl_get w nl ++ [ci]).
+  { rewrite Hw2, wl_get_put_same by lia. rewrite Hg1o by exact Hne. reflexivity. }
+  assert (Hg2a : wl_get w2 la = swap_remove (wl_get w la) idx).
+  { rewrite Hw2, wl_get_put_other by exact Hne. exact Hg1a. }
+  assert (Hg2o : forall l, l <> la -> l <> nl -> wl_get w2 l = wl_get w l).
+  { intros l H1 H2. rewrite Hw2, wl_get_put_other by congruence. apply Hg1o. exact H1. }
+  destruct (swap_remove_in _ _ Hidx (Hnd la)) as [Hnds Hins].
+  split; [|split; [|split; [exact Hg2o|split; [|split; [lia|split; [lia|]]]]]].
+  - intros cj l. unfold watched. destruct (lit_eqb l la) eqn:E1.
+    + apply lit_eqb_eq in E1. subst l. rewrite Hg2a, Hins. fold ci. split.
+      * intros [H1 H2]. right. split; [exact H1|]. intros [H3 _]. contradiction.
+      * intros [[_ H]|[H1 H2]]; [congruence|]. split; [exact H1|]. intros H3. apply H2. auto.
+    + assert (Hl : l <> la) by (intros ->; rewrite (proj2 (lit_eqb_eq la la) eq_refl) in E1; discriminate).
+      destruct (lit_eqb l nl) eqn:E2.
+      * apply lit_eqb_eq in E2. subst l. rewrite Hg2n, in_app_iff. simpl. split.
+        -- intros [H|[H|[]]]; [right; split; [exact H|intros [_ H2]; contradiction]|left; auto].
+        -- intros [[H _]|[H _]]; [right; left; congruence|left; exact H].
+      * assert (Hl2 : l <> nl) by (intros ->; rewrite (proj2 (lit_eqb_eq nl nl) eq_refl) in E2; discriminate).
+        rewrite Hg2o by assumption. split.
+        -- intros H. right. split; [exact H|intros [_ H2]; contradiction].
+        -- intros [[_ H]|[H _]]; [contradiction|exact H].
+  - intros l. destruct (lit_eqb l la) eqn:E1.
+    + apply lit_eqb_eq in E1. subst l. rewrite Hg2a. exact Hnds.
+    + assert (Hl : l <> la) by (intros ->; rewrite (proj2 (lit_eqb_eq la la) eq_refl) in E1; discriminate).
+      destruct (lit_eqb l nl) eqn:E2.
+      * apply lit_eqb_eq in E2. subst l. rewrite Hg2n.
+        eapply Permutation_NoDup; [apply Permutation_cons_append|]. constructor; [exact Hnw|apply Hnd].
+      * assert (Hl2 : l <> nl) by (intros ->; rewrite (proj2 (lit_eqb_eq nl nl) eq_refl) in E2; discriminate).
+        rewrite Hg2o by assumption. apply Hnd.
+  - intros p Hp. rewrite Hg2a. apply (proj2 (swap_remove_spec _ _ Hidx)). exact Hp.
+  - unfold w2, move_watch. apply wl_push_ok.
+    + apply wl_put_ok; [exact Hok|]. apply swap_remove_ok. apply wl_get_ok. exact Hok.
+    + pose proof (wl_get_ok _ _ la Hok) as Hall. eapply Forall_forall in Hall; [exact Hall|]. apply nth_In. exact Hidx.
+Qed.
+Lemma S_move nvars cls w la idx nl :
+  S_inv nvars cls w -> lvar la < nvars -> lvar nl < nvars -> nl <> la ->
+  idx < length (wl_get w la) -> ~ watched w (nth idx (wl_get w la) 0) nl ->
+  In nl (nth (nth idx (wl_get w la) 0) cls []) ->
+  S_inv nvars cls (move_watch w la idx nl).
+Proof.
+  intros HS Hla Hnl Hne Hidx Hnw Hin.
+  destruct (move_watch_spec nvars cls w la idx nl HS Hla Hnl Hne Hidx Hnw) as [Hw [Hnd [_ [_ [Hlp [Hln Hok]]]]]].
+  set (ci := nth idx (wl_get w la) 0) in *.
+  constructor; try assumption.
+  intros cj Hcj Hlen. destruct (S_two _ _ _ HS cj Hcj Hlen) as [l1 [l2 [H12 [Hi1 [Hi2 Hiff]]]]].
+  destruct (Nat.eq_dec cj ci) as [->|Hcne].
+  - assert (Hwa : watched w ci la) by (apply nth_In; exact Hidx).
+    apply Hiff in Hwa. destruct Hwa as [-> | ->].
+    + exists l2, nl. split; [intros ->; apply Hnw, Hiff; auto|]. split; [exact Hi2|split; [exact Hin|]].
+      intros l. rewrite Hw, Hiff. split.
+      * intros [[_ ->]|[[-> | ->] Hx]]; auto. exfalso. apply Hx. auto.
+      * intros [-> | ->]; [right; split; [auto|intros [_ Hx]; congruence]|left; auto].
+    + exists l1, nl. split; [intros ->; apply Hnw, Hiff; auto|]. split; [exact Hi1|split; [exact Hin|]].
+      intros l. rewrite Hw, Hiff. split.
+      * intros [[_ ->]|[[-> | ->] Hx]]; auto. exfalso. apply Hx. auto.
+      * intros [-> | ->]; [right; split; [auto|intros [_ Hx]; congruence]|left; auto].
+  - exists l1, l2. split; [exact H12|split; [exact Hi1|split; [exact Hi2|]]].
+    intros l. rewrite Hw, <- Hiff. split.
+    + intros [[Hx _]|[Hx _]]; [contradiction|exact Hx].
+    + intros Hx. right. split; [exact Hx|intros [Hy _]; contradiction].
+Qed.
+
+Lemma V_move nvars cls B w la idx nl mm :
+  S_inv nvars cls w -> lvar la < nvars -> lvar nl < nvars -> nl <> la ->
+  idx < length (wl_get w la) -> ~ watched w (nth idx (wl_get w la) 0) nl ->
+  lit_false mm nl = false -> V cls B w mm -> V cls B (move_watch w la idx nl) mm.
+Proof.
+  intros HS Hla Hnl Hne Hidx Hnw Hnf HV.
+  destruct (move_watch_spec nvars cls w la idx nl HS Hla Hnl Hne Hidx Hnw) as [Hw _].
+  intros cj l Hcj Hlen Hwt Hf. apply Hw in Hwt. destruct Hwt as [[_ ->]|[Hwt _]]; [congruence|].
+  apply HV; assumption.
+Qed.
+
+Lemma clause_sat_le m m' c : pm_le m m' -> clause_sat m c = true -> clause_sat m' c = true.
+Proof.
+  unfold clause_sat. rewrite !existsb_exists. intros Hle [x [Hx Ht]]. exists x. split; [exact Hx|].
+  eapply lit_true_le; eauto.
+Qed.
+
+Lemma lit_unset_le m m' l : pm_le m m' -> lit_unset m' l = true -> lit_false m l = false.
+Proof.
+  unfold lit_unset, lit_false, pm_is_set. intros Hle H.
+  destruct (pm_get m (lvar l)) as [x|] eqn:E; [|reflexivity]. rewrite (Hle _ _ E) in H. discriminate.
+Qed.
+
+Lemma lit_true_not_unset m l : lit_true m l = true -> pm_is_set m (lvar l) = true.
+Proof. unfold lit_true, pm_is_set. destruct (pm_get m (lvar l)); [reflexivity|discriminate]. Qed.
+
+Lemma lit_true_false_neg m l : lit_true m l = true -> lit_false m (lneg l) = true.
+Proof.
+  destruct l as [v p]. unfold lit_true, lit_false, lneg, lvar, lpol. simpl.
+  destruct (pm_get m v) as [x|]; [|discriminate]. destruct p, x; simpl; auto.
+Qed.
+
+Lemma up_decide_sets pinned cls fuel w m a w' m' :
+  w_ok (length cls) w -> lvar a < length m ->
+  up_decide pinned cls fuel w m a = URes w' (Some m') -> lit_true m' a = true.
+Proof.
+  intros Hw Hl H. destruct fuel as [|f]; [discriminate|]. rewrite up_decide_S in H.
+  destruct (pm_get m (lvar a)) as [x|] eqn:E.
+  - destruct (Bool.eqb x (lpol a)) eqn:Ex; inversion H; subst. unfold lit_true. rewrite E.
+    apply eqb_prop in Ex. subst. apply eqb_reflx.
+  - apply (proj2 (up_basic pinned cls f)) in H; [|exact Hw]. destruct H as [_ [Hm _]].
+    destruct (Hm m' eq_refl) as [_ Hle]. unfold lit_true.
+    rewrite (Hle _ _ (pm_get_set_same m (lvar a) (lpol a) Hl)). apply eqb_reflx.
+Qed.
+
+Lemma V_set cls B w m a :
+  pm_get m (lvar a) = None -> V cls B w m -> V cls (a :: B) w (pm_set m (lvar a) (lpol a)).
+Proof.
+  intros Hn HV ci l Hci Hlen Hwt Hf.
+  destruct (Nat.eq_dec (lvar l) (lvar a)) as [Hv|Hv].
+  - right. left. unfold lit_false in Hf. rewrite Hv in Hf.
+    destruct (pm_get (pm_set m (lvar a) (lpol a)) (lvar a)) as [x|] eqn:E; [|discriminate].
+    apply pm_get_set_inv in E. destruct E as [[_ ->]|E]; [|congruence].
+    destruct l as [v p], a as [v' p']. unfold lneg. simpl in *. subst v'.
+    destruct p, p'; simpl in *; try discriminate; reflexivity.
+  - assert (Hf' : lit_false m l = true).
+    { unfold lit_false in *. rewrite pm_get_set_other in Hf by congruence. exact Hf. }
+    destruct (HV ci l Hci Hlen Hwt Hf') as [Hs|Hb]; [left|right; right; exact Hb].
+    eapply clause_sat_le; [apply pm_le_set; exact Hn|exact Hs].
+Qed.
+
+Lemma remaining_in m c l : In l (remaining m c) -> In l c /\ lit_unset m l = true.
+Proof. unfold remaining. rewrite filter_In. tauto. Qed.
+
+Lemma unset_not_false m l : lit_unset m l = true -> lit_false m l = false.
+Proof. unfold lit_unset, lit_false, pm_is_set. destruct (pm_get m (lvar l)); [discriminate|reflexivity]. Qed.
+
+Lemma filter_len_le {A} (p : A -> bool) l : length (filter p l) <= length l.
+Proof. induction l as [|x t IH]; simpl; [lia|]. destruct (p x); simpl; lia. Qed.
+
+Section FIX.
+Variable nvars : nat.
+Variable cls : list clause.
+Hypothesis Hrange : lits_in_range nvars cls.
+Hypothesis Hnd : Forall (@NoDup lit) cls.
+
+Definition frame_eq (m : pmodel) (except : option lit) (w w' : watches) : Prop :=
+  forall l, pm_is_set m (lvar l) = true -> Some l <> except -> wl_get w' l = wl_get w l.
+Definition lowerV (m : pmodel) (w w' : watches) : Prop :=
+  forall mj B, pm_le mj m -> V cls B w mj -> V cls B w' mj.
+Definition prefix_sat (w : watches) (m : pmodel) (a : lit) (idx : nat) : Prop :=
+  forall p, p < idx -> clause_sat m (nth (nth p (wl_get w (lneg a)) 0) cls []) = true.
+
+Lemma up_fix fuel :
+  (forall w m a w' r, S_inv nvars cls w -> length m = nvars -> lvar a < nvars ->
+     up_decide false cls fuel w m a = URes w' r ->
+     S_inv nvars cls w' /\ frame_eq m None w w' /\ lowerV m w w' /\
+     (forall m', r = Some m' -> forall B, V cls B w m -> V cls B w' m')) /\
+  (forall w m a idx w' r, S_inv nvars cls w -> length m = nvars -> lvar a < nvars ->
+     lit_true m a = true ->
+     up_loop false cls fuel w m a idx = URes w' r ->
+     S_inv nvars cls w' /\ frame_eq m (Some (lneg a)) w w' /\ lowerV m w w' /\
+     (forall m', r = Some m' -> forall B, V cls (a :: B) w m -> prefix_sat w m a idx -> V cls B w' m')).
+Proof.
+  induction fuel as [|f [IHd IHl]]; [split; intros; discriminate|]. split.
+  - intros w m a w' r HS Hlen Ha H. rewrite up_decide_S in H.
+    destruct (pm_get m (lvar a)) as [x|] eqn:E.
+    + assert (Hww : w' = w) by (destruct (Bool.eqb x (lpol a)); inversion H; reflexivity). subst w'.
+      split; [exact HS|split; [intros l _ _; reflexivity|split; [intros mj B _ HV; exact HV|]]].
+      intros m' Hr B HV. destruct (Bool.eqb x (lpol a)); inversion H as [Hrr]; rewrite <- Hrr in Hr;
+        [|discriminate]. inversion Hr. subst m'. exact HV.
+    + apply IHl in H; try assumption.
+      * destruct H as [HS' [Hfr [Hlow Hcur]]]. split; [exact HS'|split; [|split]].
+        -- intros l Hl _. apply Hfr.
+           ++ unfold pm_is_set in *. destruct (pm_get m (lvar l)) as [y|] eqn:Ey; [|discriminate].
+              rewrite (pm_le_set m (lvar a) (lpol a) E _ _ Ey). reflexivity.
+           ++ intros Hx. inversion Hx; subst. unfold pm_is_set in Hl. rewrite lvar_lneg, E in Hl. discriminate.
+        -- intros mj B Hle HV. apply Hlow; [|exact HV]. eapply pm_le_trans; [exact Hle|apply pm_le_set; exact E].
+        -- intros m' Hr B HV. apply (Hcur m' Hr B); [apply V_set; assumption|]. intros p Hp. lia.
+      * unfold pm_set. rewrite length_set_nth. exact Hlen.
+      * unfold lit_true. rewrite pm_get_set_same by lia. apply eqb_reflx.
+  - intros w m a idx w' r HS Hlen Ha Hta H. rewrite up_loop_S in H. cbv zeta in H.
+    destruct (Nat.leb (length (wl_get w (lneg a))) idx) eqn:Eidx.
+    { injection H as Hw0 Hr0; subst w' r. apply Nat.leb_le in Eidx.
+      split; [exact HS|split; [intros l _ _; reflexivity|split; [intros mj B _ HV; exact HV|]]].
+      intros m' Hr B HV Hpre. injection Hr as Hr; subst m'. intros ci l Hci Hl2 Hwt Hf.
+      destruct (HV ci l Hci Hl2 Hwt Hf) as [Hs|[Hb|Hb]]; [left; exact Hs| |right; exact Hb].
+      left. assert (l = lneg a) by (rewrite Hb; symmetry; apply lneg_involutive). subst l.
+      unfold watched in Hwt. apply In_nth with (d := 0) in Hwt. destruct Hwt as [p [Hp <-]]. apply Hpre. lia. }
+    apply Nat.leb_gt in Eidx.
+    set (la := lneg a) in *. set (ci := nth idx (wl_get w la) 0) in *.
+    assert (Hci : ci < length cls).
+    { pose proof (wl_get_ok _ _ la (S_ok _ _ _ HS)) as Hall. eapply Forall_forall in Hall; [exact Hall|].
+      apply nth_In. exact Eidx. }
+    set (c := nth ci cls []) in *.
+    assert (Hc : In c cls) by (apply nth_In_clause; exact Hci).
+    assert (Hwok : w_ok (length cls) w) by (apply (S_ok _ _ _ HS)).
+    destruct (clause_sat m c) eqn:Esat.
+    { apply IHl in H; try assumption. destruct H as [HS' [Hfr [Hlow Hcur]]].
+      split; [exact HS'|split; [exact Hfr|split; [exact Hlow|]]].
+      intros m' Hr B HV Hpre. apply (Hcur m' Hr B HV). intros p Hp.
+      destruct (Nat.eq_dec p idx) as [->|Hne]; [exact Esat|apply Hpre; lia]. }
+    destruct (remaining m c) as [|u [|second rest]] eqn:Erem.
+    + injection H as Hw0 Hr0; subst w' r.
+      split; [exact HS|split; [intros l _ _; reflexivity|split; [intros mj B _ HV; exact HV|]]].
+      intros m' Hr. discriminate.
+    + assert (Hu : In u (remaining m c)) by (rewrite Erem; left; reflexivity).
+      apply remaining_in in Hu. destruct Hu as [Huc Huu].
+      assert (Hur : lvar u < nvars) by (eapply Hrange; eauto).
+      destruct (up_decide false cls f w m u) as [|w1 [m1|]] eqn:Ed; [discriminate| |].
+      * pose proof Ed as Ed0. apply IHd in Ed; try assumption. destruct Ed as [HS1 [Hfr1 [Hlow1 Hcur1]]].
+        pose proof (proj1 (up_basic false cls f) _ _ _ _ _ Hwok Ed0) as [_ [Hm1 _]].
+        destruct (Hm1 m1 eq_refl) as [Hlen1 Hle1].
+        assert (Htu : lit_true m1 u = true) by (eapply up_decide_sets; eauto; lia).
+        assert (Hla1 : wl_get w1 la = wl_get w la).
+        { apply Hfr1; [|discriminate]. unfold la. rewrite lvar_lneg. apply lit_true_not_unset. exact Hta. }
+        apply IHl in H; try assumption; [|congruence|eapply lit_true_le; eauto].
+        destruct H as [HS' [Hfr [Hlow Hcur]]]. split; [exact HS'|split; [|split]].
+        -- intros l Hl Hx. rewrite Hfr.
+           ++ apply Hfr1; [exact Hl|discriminate].
+           ++ unfold pm_is_set in *. destruct (pm_get m (lvar l)) as [y|] eqn:Ey; [|discriminate].
+              rewrite (Hle1 _ _ Ey). reflexivity.
+           ++ exact Hx.
+        -- intros mj B Hle HV. apply Hlow; [eapply pm_le_trans; eauto|]. apply Hlow1; assumption.
+        -- intros m' Hr B HV Hpre. apply (Hcur m' Hr B).
+           ++ apply (Hcur1 m1 eq_refl (a :: B)). exact HV.
+           ++ intros p Hp. fold la. rewrite Hla1. destruct (Nat.eq_dec p idx) as [->|Hne].
+              ** fold ci. fold c. unfold clause_sat. apply existsb_exists. exists u. auto.
+              ** eapply clause_sat_le; [exact Hle1|]. apply Hpre. lia.
+      * injection H as Hw0 Hr0; subst w' r. apply IHd in Ed; try assumption. destruct Ed as [HS1 [Hfr1 [Hlow1 _]]].
+        split; [exact HS1|split; [|split; [exact Hlow1|intros m' Hr; discriminate]]].
+        intros l Hl _. apply Hfr1; [exact Hl|discriminate].
+    + (* move the watch *)
+      set (nl := if mem_nat ci (wl_get w u) then second else u) in *.
+      change (wl_push (wl_put w la (swap_remove (wl_get w la) idx)) nl ci) with (move_watch w la idx nl) in H.
+      assert (Hu : In u (remaining m c)) by (rewrite Erem; left; reflexivity).
+      assert (Hs : In second (remaining m c)) by (rewrite Erem; right; left; reflexivity).
+      apply remaining_in in Hu. apply remaining_in in Hs. destruct Hu as [Huc Huu]. destruct Hs as [Hsc Hsu].
+      assert (Hus : u <> second).
+      { assert (Hndc : NoDup c) by (eapply Forall_forall in Hnd; eauto).
+        assert (Hndr : NoDup (remaining m c)) by (apply NoDup_filter; exact Hndc).
+        rewrite Erem in Hndr. inversion Hndr as [|? ? Hni _]; subst. intros ->. apply Hni. left. reflexivity. }
+      assert (Hfla : lit_false m la = true) by (apply lit_true_false_neg; exact Hta).
+      assert (Hnlc : In nl c /\ lit_unset m nl = true) by (unfold nl; destruct (mem_nat ci (wl_get w u)); auto).
+      destruct Hnlc as [Hnlc Hnlu].
+      assert (Hnla : nl <> la).
+      { intros Hx. rewrite Hx in Hnlu. apply unset_not_false in Hnlu. congruence. }
+      assert (Hnlr : lvar nl < nvars) by (eapply Hrange; eauto).
+      assert (Hlar : lvar la < nvars) by (unfold la; rewrite lvar_lneg; exact Ha).
+      assert (Hwla : watched w ci la) by (apply nth_In; exact Eidx).
+      assert (Hlen2 : 2 <= length c).
+      { assert (Hlr : length (remaining m c) <= length c) by apply filter_len_le.
+        rewrite Erem in Hlr. simpl in Hlr. lia. }
+      assert (Hnw : ~ watched w ci nl).
+      { unfold nl. destruct (mem_nat ci (wl_get w u)) eqn:Em.
+        - apply mem_nat_in in Em. destruct (S_two _ _ _ HS ci Hci Hlen2) as [l1 [l2 [H12 [_ [_ Hiff]]]]].
+          intros Hws. apply Hiff in Hws. apply Hiff in Hwla. apply Hiff in Em.
+          assert (Hula : u <> la).
+          { intros Hx. rewrite Hx in Huu. apply unset_not_false in Huu. congruence. }
+          assert (Hsla : second <> la).
+          { intros Hx. rewrite Hx in Hsu. apply unset_not_false in Hsu. congruence. }
+          destruct Hws as [-> | ->], Hwla as [Hy|Hy], Em as [Hz|Hz]; congruence.
+        - intros Hx. apply mem_nat_in in Hx. congruence. }
+      assert (HS2 : S_inv nvars cls (move_watch w la idx nl)) by (apply S_move; assumption).
+      destruct (move_watch_spec nvars cls w la idx nl HS Hlar Hnlr Hnla Eidx Hnw) as [_ [_ [Hoth [Hpref _]]]].
+      apply IHl in H; try assumption. destruct H as [HS' [Hfr [Hlow Hcur]]].
+      split; [exact HS'|split; [|split]].
+      * intros l Hl Hx. rewrite Hfr by assumption. apply Hoth; [congruence|].
+        intros ->. unfold lit_unset in Hnlu. rewrite Hl in Hnlu. discriminate.
+      * intros mj B Hle HV. apply Hlow; [exact Hle|]. eapply V_move; eauto. eapply lit_unset_le; eauto.
+      * intros m' Hr B HV Hpre. apply (Hcur m' Hr B).
+        -- eapply V_move; eauto. apply unset_not_false. exact Hnlu.
+        -- intros p Hp. fold la. rewrite Hpref by exact Hp. apply Hpre. exact Hp.
+Qed.
+End FIX.
 
 (* ---------- D2: the pinned replacement-watch test misses a unit; the repaired one does not ---------- *)
 Definition d2_cnf : list clause := [[(0, false); (1, false); (2, true)]].
@@ -949,3 +1346,59 @@ Lemma d2_repaired :
   final_state false d2_cnf d2_hist = Some ([Some true; Some false; Some false], [(0, true); (2, false)]) /\
   fixpoint_ok (cnf_new d2_cnf) [Some true; Some false; Some false] = true.
 Proof. split; vm_compute; reflexivity. Qed.
+(* ---------- invariant at rest => fix-point ---------- *)
+Definition units_true (cls : list clause) (m : pmodel) : Prop :=
+  forall l, In [l] cls -> lit_true m l = true.
+
+Lemma lit_trichotomy m l : lit_true m l = true \/ lit_false m l = true \/ lit_unset m l = true.
+Proof.
+  unfold lit_true, lit_false, lit_unset, pm_is_set. destruct (pm_get m (lvar l)) as [x|]; [|auto].
+  destruct (Bool.eqb (lpol l) x); auto.
+Qed.
+
+Lemma two_in_length {A} (x y : A) l : x <> y -> In x l -> In y l -> 2 <= length l.
+Proof.
+  intros Hne Hx Hy. destruct l as [|a [|b t]]; simpl in *;
+    [destruct Hx|destruct Hx as [Hx|[]], Hy as [Hy|[]]; congruence|lia].
+Qed.
+
+Lemma inv_fixpoint nvars cls w m :
+  S_inv nvars cls w -> V cls [] w m -> units_true cls m -> ~ In [] cls ->
+  fixpoint_ok cls m = true.
+Proof.
+  intros HS HV Hu Hne. unfold fixpoint_ok. apply forallb_forall. intros c Hc.
+  unfold clause_quiet. destruct (clause_sat m c) eqn:Esat; [reflexivity|]. cbn [orb]. apply Nat.leb_le.
+  pose proof Hc as Hc'. apply In_nth with (d := []) in Hc'. destruct Hc' as [ci [Hci Hnth]].
+  destruct c as [|l0 [|l1 t]].
+  - contradiction.
+  - exfalso. specialize (Hu l0 Hc). unfold clause_sat in Esat. simpl in Esat. rewrite Hu in Esat. discriminate.
+  - assert (Hlen : 2 <= length (nth ci cls [])) by (rewrite Hnth; simpl; lia).
+    destruct (S_two _ _ _ HS ci Hci Hlen) as [x [y [Hxy [Hx [Hy Hiff]]]]]. rewrite Hnth in Hx, Hy.
+    assert (Hun : forall z, In z (l0 :: l1 :: t) -> watched w ci z -> lit_unset m z = true).
+    { intros z Hz Hwz. destruct (lit_trichotomy m z) as [Ht|[Hf|Hu']]; [| |exact Hu'].
+      - exfalso. assert (clause_sat m (l0 :: l1 :: t) = true) by (apply existsb_exists; exists z; auto). congruence.
+      - exfalso. destruct (HV ci z Hci Hlen Hwz Hf) as [Hs|[]]. rewrite Hnth in Hs. congruence. }
+    apply (two_in_length x y); [exact Hxy| |]; apply filter_In; split; auto; apply Hun; auto; apply Hiff; auto.
+Qed.
+
+(* ---------- one decide from a state satisfying the invariant (repaired code) ----------
+   [w] are the shared watch lists, [m] the model on top of the stack, [mj] any model below it. *)
+Theorem fix_step nvars cls fuel w m a w' r :
+  lits_in_range nvars cls -> Forall (@NoDup lit) cls -> ~ In [] cls ->
+  S_inv nvars cls w -> length m = nvars -> lvar a < nvars ->
+  up_decide false cls fuel w m a = URes w' r ->
+  S_inv nvars cls w' /\
+  (forall mj, pm_le mj m -> V cls [] w mj -> V cls [] w' mj) /\
+  (forall m', r = Some m' -> V cls [] w m -> units_true cls m ->
+     V cls [] w' m' /\ units_true cls m' /\ length m' = nvars /\ pm_le m m' /\ fixpoint_ok cls m' = true).
+Proof.
+  intros Hrange Hnd Hne HS Hlen Ha H.
+  pose proof (proj1 (up_fix nvars cls Hrange Hnd fuel) _ _ _ _ _ HS Hlen Ha H) as [HS' [_ [Hlow Hcur]]].
+  pose proof (proj1 (up_basic false cls fuel) _ _ _ _ _ (S_ok _ _ _ HS) H) as [_ [Hm _]].
+  split; [exact HS'|split; [intros mj Hle HV; apply Hlow; assumption|]].
+  intros m' Hr HV Hu. destruct (Hm m' Hr) as [Hlen' Hle].
+  assert (HV' : V cls [] w' m') by (apply (Hcur m' Hr []); exact HV).
+  assert (Hu' : units_true cls m') by (intros l Hl; eapply lit_true_le; [exact Hle|apply Hu; exact Hl]).
+  split; [exact HV'|split; [exact Hu'|split; [congruence|split; [exact Hle|]]]].
+  eapply inv_fixpoint; eauto.
+Qed.
